@@ -38,6 +38,7 @@ DEFAULT_OPTS = dict(
     cond_prob=0.3,  # probability that an effect is conditional (when `conditional`)
     op_bias=None,  # {connective: extra weight} -- makes a compiler's own feature frequent in its corpus
     static_guards=0.0,  # probability that an action gets positive preconditions over STATIC Boolean fluents of its parameters
+    incdec_plain_cond=0.0,  # probability that the condition of a conditional increase/decrease is a conjunction of literals
 )
 
 
@@ -472,7 +473,12 @@ class Gen:
                 v = num(r.choice([1, 1, 1, 2] if intonly else [1, Fraction(1, 2), 1, Fraction(3, 2)]))
         c = TRUE_E
         if o["conditional"] and r.random() < o["cond_prob"]:
-            c = self.bool_expr(r.choice([1, 1, 1, 2]), params, vs)
+            if kind != "assign" and r.random() < o["incdec_plain_cond"]:
+                lits = [self.atom(params, vs) for _ in range(r.choice([1, 1, 2]))]
+                lits = [E("not", [x]) if o["negation"] and r.random() < 0.4 else x for x in lits]
+                c = lits[0] if len(lits) == 1 else E("and", lits)
+            else:
+                c = self.bool_expr(r.choice([1, 1, 1, 2]), params, vs)
         return {"kind": kind, "f": {"name": target["name"], "args": target["args"]}, "v": v, "c": c, "forall": fa}
 
     def drop_static_conflicts(self, effects):
